@@ -289,3 +289,328 @@ Proof.
 Qed.
 
 End Sender.
+
+(* ======================================================================== *)
+(* 3. conservation: every record is in exactly one place                     *)
+(* ======================================================================== *)
+Definition LS_cnt (x : Z) (l : list Z) : Z := Z.of_nat (count_occ Z.eq_dec l x).
+
+Lemma LS_cnt_app x a b : LS_cnt x (a ++ b) = LS_cnt x a + LS_cnt x b.
+Proof. unfold LS_cnt. rewrite count_occ_app. lia. Qed.
+Lemma LS_cnt_nil x : LS_cnt x [] = 0.
+Proof. reflexivity. Qed.
+Lemma LS_cnt_cons x r l : LS_cnt x (r :: l) = LS_cnt x [r] + LS_cnt x l.
+Proof. change (r :: l) with ([r] ++ l). apply LS_cnt_app. Qed.
+Lemma LS_cnt_nonneg x l : 0 <= LS_cnt x l.
+Proof. unfold LS_cnt. lia. Qed.
+Global Opaque LS_cnt.
+
+Lemma LS_nodup_cnt l : NoDup l <-> forall x, LS_cnt x l <= 1.
+Proof.
+  rewrite (NoDup_count_occ Z.eq_dec). Transparent LS_cnt. unfold LS_cnt. Opaque LS_cnt.
+  split; intros H x; specialize (H x); lia.
+Qed.
+
+(* the records security.connect will still log *)
+Definition LS_future (e : list ls_attempt) : list Z := concat (map ls_logged e).
+(* the records whose whole frame was accepted by some connection *)
+Definition LS_onwire (s : ls_st) : list Z :=
+  concat (map ls_wids (ls_closed s)) ++ match ls_sock s with Some w => ls_wids w | None => [] end.
+(* where a record can be *)
+Definition LS_U (x : Z) (s : ls_st) : Z :=
+  LS_cnt x (LS_onwire s) + LS_cnt x (ls_dropped s) + LS_cnt x (ls_q s) + LS_cnt x (ls_local s)
+  + LS_cnt x (LS_future (ls_env s)).
+
+Definition LS_ev_ids (e : ls_ev) : list Z := match e with LEmit _ r => [r] | LClose _ => [] end.
+
+Lemma LS_future_step e : LS_future e = ls_logged_hd e ++ LS_future (tl e).
+Proof. destruct e; reflexivity. Qed.
+
+Lemma LS_createSocket_U x s : ls_sock s = None ->
+  LS_U x (fst (ls_createSocket s)) = LS_U x s.
+Proof.
+  intros E. unfold ls_createSocket. cbv zeta.
+  destruct (match ls_rtime _ with Some rt => _ | None => true end);
+  [destruct (ls_res _ =? 0); [|destruct (ls_res _ =? 1)]|];
+  unfold LS_U, LS_onwire; cbn [fst ls_sock ls_closed ls_dropped ls_q ls_local ls_env
+    ls_set_retry ls_set_sock ls_set_shaking ls_set_env ls_set_q ls_set_clock ls_wids];
+  rewrite ?E, (LS_future_step (ls_env s)), ?LS_cnt_app, ?LS_cnt_nil; lia.
+Qed.
+
+Section Conservation.
+Variable pk : Z -> list Z.
+
+Lemma LS_send_tail_U x s r : LS_U x (LS_send_tail pk s r) = LS_U x s + LS_cnt x [r].
+Proof.
+  unfold LS_send_tail. destruct (ls_sock s) as [w|] eqn:E; cbv zeta; [destruct (_ <? 0)|];
+  unfold LS_U, LS_onwire;
+  cbn [ls_sock ls_closed ls_dropped ls_q ls_local ls_env ls_drop ls_set_dropped ls_set_closed
+       ls_set_sock ls_set_sends ls_wids map concat];
+  rewrite ?E, ?LS_cnt_app, ?LS_cnt_nil; lia.
+Qed.
+
+Lemma LS_drop_U x s r : LS_U x (ls_drop s r) = LS_U x s + LS_cnt x [r].
+Proof.
+  unfold LS_U, LS_onwire. cbn [ls_sock ls_closed ls_dropped ls_q ls_local ls_env ls_drop ls_set_dropped].
+  rewrite ?LS_cnt_app. lia.
+Qed.
+
+Lemma LS_send_U x s r : LS_U x (ls_send pk s r) = LS_U x s + LS_cnt x [r].
+Proof.
+  rewrite LS_send_unfold. destruct (ls_sock s) eqn:E.
+  - apply LS_send_tail_U.
+  - pose proof (LS_createSocket_U x s E) as H. destruct (ls_createSocket s) as [s1 e]. cbn [fst snd] in *.
+    destruct e; [rewrite LS_drop_U|rewrite LS_send_tail_U]; lia.
+Qed.
+
+Lemma LS_set_q_U x s rest r : ls_q s = r :: rest -> LS_U x (ls_set_q s rest) + LS_cnt x [r] = LS_U x s.
+Proof.
+  intros E. unfold LS_U, LS_onwire. cbn [ls_sock ls_closed ls_dropped ls_q ls_local ls_env ls_set_q].
+  rewrite E, (LS_cnt_cons x r rest). lia.
+Qed.
+
+Lemma LS_flush_U x f : forall s, LS_U x (ls_flush pk f s) = LS_U x s.
+Proof.
+  induction f as [|f IH]; intros s; cbn [ls_flush]; [reflexivity|].
+  destruct (ls_q s) as [|r rest] eqn:E; [reflexivity|].
+  rewrite IH, LS_send_U. apply LS_set_q_U, E.
+Qed.
+
+Lemma LS_emit_U x wi s r : LS_U x (ls_emit pk wi s r) = LS_U x s + LS_cnt x [r].
+Proof.
+  unfold ls_emit. destruct wi; [|destruct (ls_shaking s)].
+  - unfold LS_U, LS_onwire. cbn [ls_sock ls_closed ls_dropped ls_q ls_local ls_env ls_set_local].
+    rewrite ?LS_cnt_app. lia.
+  - unfold LS_U, LS_onwire. cbn [ls_sock ls_closed ls_dropped ls_q ls_local ls_env ls_set_q].
+    rewrite ?LS_cnt_app. lia.
+  - rewrite LS_send_U, LS_flush_U. reflexivity.
+Qed.
+
+Lemma LS_close_U x s : LS_U x (ls_close s) = LS_U x s.
+Proof.
+  unfold ls_close. destruct (ls_sock s) as [w|] eqn:E; [|reflexivity].
+  unfold LS_U, LS_onwire.
+  cbn [ls_sock ls_closed ls_dropped ls_q ls_local ls_env ls_set_closed ls_set_sock map concat].
+  rewrite ?E, ?LS_cnt_app, ?LS_cnt_nil. lia.
+Qed.
+
+Lemma LS_step_U x wi s e : LS_U x (ls_step pk wi s e) = LS_U x s + LS_cnt x (LS_ev_ids e).
+Proof.
+  destruct e; cbn [ls_step LS_ev_ids].
+  - rewrite LS_emit_U. reflexivity.
+  - rewrite LS_close_U, LS_cnt_nil. change (LS_U x (ls_at s t)) with (LS_U x s). lia.
+Qed.
+
+Lemma LS_run_U x wi evs : forall s,
+  LS_U x (ls_run pk wi s evs) = LS_U x s + LS_cnt x (flat_map LS_ev_ids evs).
+Proof.
+  unfold ls_run. induction evs as [|e evs IH]; intros s; cbn [fold_left flat_map].
+  - rewrite LS_cnt_nil. lia.
+  - rewrite IH, LS_step_U, LS_cnt_app. lia.
+Qed.
+
+Lemma LS_cnt_wires x s : LS_cnt x (concat (map ls_wids (ls_wires s))) = LS_cnt x (LS_onwire s).
+Proof.
+  unfold ls_wires, LS_onwire. rewrite map_app, concat_app, !LS_cnt_app. f_equal.
+  - induction (ls_closed s) as [|w l IH]; [reflexivity|]. cbn [rev map concat].
+    rewrite map_app, concat_app, !LS_cnt_app, IH. cbn [map concat]. rewrite app_nil_r. lia.
+  - destruct (ls_sock s); cbn [map concat]; rewrite ?app_nil_r; reflexivity.
+Qed.
+
+(* every record handed to the handler or logged by security.connect is, at the
+   end of the history, in exactly one place: on one connection (its whole frame
+   accepted, once), dropped, still queued, handled locally, or not logged yet *)
+Theorem LS_conservation wi ticks env sends evs x :
+  let s := ls_run pk wi (ls_init ticks env sends) evs in
+  LS_cnt x (concat (map ls_wids (ls_wires s))) + LS_cnt x (ls_dropped s) + LS_cnt x (ls_q s)
+  + LS_cnt x (ls_local s) + LS_cnt x (LS_future (ls_env s))
+  = LS_cnt x (flat_map LS_ev_ids evs) + LS_cnt x (LS_future env).
+Proof.
+  cbv zeta. rewrite LS_cnt_wires.
+  pose proof (LS_run_U x wi evs (ls_init ticks env sends)) as H. unfold LS_U in H at 1. rewrite H.
+  unfold LS_U, LS_onwire, ls_init. cbn [ls_sock ls_closed ls_dropped ls_q ls_local ls_env map concat app].
+  rewrite ?LS_cnt_nil. lia.
+Qed.
+
+(* with pairwise different records: no record is written twice, on one
+   connection or on two *)
+Theorem LS_at_most_once wi ticks env sends evs :
+  NoDup (flat_map LS_ev_ids evs ++ LS_future env) ->
+  NoDup (concat (map ls_wids (ls_wires (ls_run pk wi (ls_init ticks env sends) evs)))).
+Proof.
+  rewrite !LS_nodup_cnt. intros H x. specialize (H x). rewrite LS_cnt_app in H.
+  pose proof (LS_conservation wi ticks env sends evs x) as C. cbv zeta in C.
+  set (s := ls_run pk wi (ls_init ticks env sends) evs) in *.
+  pose proof (LS_cnt_nonneg x (ls_dropped s)). pose proof (LS_cnt_nonneg x (ls_q s)).
+  pose proof (LS_cnt_nonneg x (ls_local s)). pose proof (LS_cnt_nonneg x (LS_future (ls_env s))). lia.
+Qed.
+
+(* ======================================================================== *)
+(* 4. the loop over self.__q ends within its fuel                            *)
+(* ======================================================================== *)
+Definition LS_mu (s : ls_st) : nat := (length (ls_q s) + ls_envsize (ls_env s))%nat.
+
+Lemma LS_logged_length a : (length (ls_logged a) <= S (length (ls_nested a)))%nat.
+Proof. unfold ls_logged. rewrite app_length. destruct (ls_res a =? 0); cbn [length]; lia. Qed.
+
+Lemma LS_createSocket_mu s : (LS_mu (fst (ls_createSocket s)) <= LS_mu s)%nat.
+Proof.
+  unfold ls_createSocket. cbv zeta.
+  destruct (match ls_rtime _ with Some rt => _ | None => true end);
+  [destruct (ls_res _ =? 0); [|destruct (ls_res _ =? 1)]|];
+  unfold LS_mu; cbn [fst ls_q ls_env ls_set_retry ls_set_sock ls_set_shaking ls_set_env ls_set_q ls_set_clock];
+  try lia; rewrite app_length; (destruct (ls_env s) as [|a e]; cbn [ls_logged_hd tl ls_envsize length];
+  [lia|pose proof (LS_logged_length a); lia]).
+Qed.
+
+Lemma LS_send_tail_mu s r : LS_mu (LS_send_tail pk s r) = LS_mu s.
+Proof.
+  unfold LS_send_tail. destruct (ls_sock s); cbv zeta; [destruct (_ <? 0)|]; reflexivity.
+Qed.
+
+Lemma LS_send_mu s r : (LS_mu (ls_send pk s r) <= LS_mu s)%nat.
+Proof.
+  rewrite LS_send_unfold. destruct (ls_sock s).
+  - rewrite LS_send_tail_mu. lia.
+  - pose proof (LS_createSocket_mu s). destruct (ls_createSocket s) as [s1 e]. cbn [fst snd] in *.
+    destruct e; [exact H|rewrite LS_send_tail_mu; exact H].
+Qed.
+
+Lemma LS_flush_done_gen f : forall s, (LS_mu s <= f)%nat -> ls_q (ls_flush pk f s) = [].
+Proof.
+  induction f as [|f IH]; intros s H; cbn [ls_flush].
+  - unfold LS_mu in H. destruct (ls_q s); [reflexivity|cbn [length] in H; lia].
+  - destruct (ls_q s) as [|r rest] eqn:E; [exact E|]. apply IH.
+    pose proof (LS_send_mu (ls_set_q s rest) r) as M.
+    unfold LS_mu in H, M at 2. rewrite E in H. cbn [ls_q ls_env ls_set_q length] in *. lia.
+Qed.
+
+(* "self.__q = []" after the loop: the model's loop ends with an empty queue *)
+Theorem LS_flush_done s : ls_q (ls_flush pk (ls_fuel s) s) = [].
+Proof. apply LS_flush_done_gen. unfold LS_mu, ls_fuel. lia. Qed.
+
+(* ======================================================================== *)
+(* 5. what the handler does when it is connected / when a connect failed      *)
+(* ======================================================================== *)
+
+(* connected, sendall never fails: the loop writes the queue in order *)
+Lemma LS_flush_up f : forall s w, ls_sock s = Some w -> ls_sends s = [] ->
+  (length (ls_q s) <= f)%nat ->
+  ls_flush pk f s =
+  ls_set_q (ls_set_sock s (Some (mkLW (ls_wids w ++ ls_q s)
+                                      (ls_wbytes w ++ concat (map (ls_makePickle pk) (ls_q s)))))) [].
+Proof.
+  induction f as [|f IH]; intros s [wi wb] Hs Hn L; cbn [ls_flush].
+  - destruct s as [so rt rp sh q cl lo dr no ti en se]. cbn in *. destruct q; [|cbn in L; lia].
+    subst. cbn. rewrite !app_nil_r. reflexivity.
+  - destruct s as [so rt rp sh q cl lo dr no ti en se]. cbn in *. subst. destruct q as [|r rest].
+    + cbn. rewrite !app_nil_r. reflexivity.
+    + cbn [length] in L. unfold ls_send. cbn [ls_sock ls_set_q ls_sends hd tl].
+      cbv zeta. cbn [Z.ltb Z.compare].
+      erewrite IH; [|reflexivity|reflexivity|cbn; lia]. cbn. rewrite <- !app_assoc. reflexivity.
+Qed.
+
+(* emit on a connected handler whose connection holds: the queued records
+   (logged during the handshake) go first, then the record; nothing else moves *)
+Theorem LS_emit_up s w r : ls_sock s = Some w -> ls_shaking s = false -> ls_sends s = [] ->
+  ls_emit pk false s r =
+  ls_set_q (ls_set_sock s (Some (mkLW (ls_wids w ++ ls_q s ++ [r])
+       (ls_wbytes w ++ concat (map (ls_makePickle pk) (ls_q s)) ++ ls_makePickle pk r)))) [].
+Proof.
+  intros Hs Hk Hn. unfold ls_emit. rewrite Hk.
+  rewrite (LS_flush_up _ s w Hs Hn) by (unfold ls_fuel; lia).
+  destruct s as [so rt rp sh q cl lo dr no ti en se]. cbn in *. subst.
+  unfold ls_send. cbn. rewrite <- !app_assoc. reflexivity.
+Qed.
+
+(* a run of emits on a connected handler whose connection holds *)
+Lemma LS_run_up trs : forall s w,
+  ls_sock s = Some w -> ls_shaking s = false -> ls_sends s = [] -> ls_q s = [] ->
+  let s' := ls_run pk false s (map (fun p => LEmit (fst p) (snd p)) trs) in
+  exists w', ls_sock s' = Some w' /\ ls_wids w' = ls_wids w ++ map snd trs
+             /\ ls_closed s' = ls_closed s /\ ls_q s' = [] /\ ls_dropped s' = ls_dropped s
+             /\ ls_shaking s' = false /\ ls_sends s' = [].
+Proof.
+  unfold ls_run. induction trs as [|[t r] trs IH]; intros s w Hs Hk Hn Hq; cbv zeta; cbn [map fold_left fst snd].
+  - exists w. rewrite app_nil_r. auto 10.
+  - cbn [ls_step].
+    rewrite (LS_emit_up (ls_at s t) w r Hs Hk Hn). cbn [ls_q ls_at ls_set_clock]. rewrite Hq.
+    cbn [map concat app].
+    edestruct (IH (ls_set_q (ls_set_sock (ls_at s t) (Some (mkLW (ls_wids w ++ [r]) (ls_wbytes w ++ ls_makePickle pk r)))) []))
+      as (w' & A & B & C & D & E & F & G); [reflexivity|exact Hk|exact Hn|reflexivity|].
+    cbv zeta in *. exists w'. split; [exact A|]. split; [|auto 10].
+    rewrite B. cbn [ls_wids]. rewrite <- app_assoc. reflexivity.
+Qed.
+
+(* the first record of a handler that has never connected, connection granted *)
+Lemma LS_first_connect rp cl lo dr no ti fid env r :
+  ls_emit pk false (mkLS None None rp false [] cl lo dr no ti (mkLA [] 0 fid :: env) []) r
+  = mkLS (Some (mkLW [r] (ls_makePickle pk r))) None rp false [] cl lo dr (no + hd 0 ti) (tl ti) env [].
+Proof. reflexivity. Qed.
+
+(* a whole history on a connection that holds: the first record connects, the
+   connection stays up, the wire carries exactly the records, in order *)
+Theorem LS_history_up ticks fid env trs t0 r0 :
+  let evs := LEmit t0 r0 :: map (fun p => LEmit (fst p) (snd p)) trs in
+  let s := ls_run pk false (ls_init ticks (mkLA [] 0 fid :: env) []) evs in
+  exists w, ls_sock s = Some w /\ ls_wids w = r0 :: map snd trs /\ ls_closed s = [] /\ ls_q s = []
+            /\ ls_dropped s = [] /\ ls_shaking s = false.
+Proof.
+  cbv zeta.
+  set (s1 := mkLS (Some (mkLW [r0] (ls_makePickle pk r0))) None (-1) false [] [] [] []
+                  (Z.max 0 t0 + hd 0 ticks) (tl ticks) env []).
+  assert (E : ls_run pk false (ls_init ticks (mkLA [] 0 fid :: env) [])
+                     (LEmit t0 r0 :: map (fun p => LEmit (fst p) (snd p)) trs)
+              = ls_run pk false s1 (map (fun p => LEmit (fst p) (snd p)) trs)) by reflexivity.
+  rewrite E. clear E.
+  destruct (LS_run_up trs s1 (mkLW [r0] (ls_makePickle pk r0)) eq_refl eq_refl eq_refl eq_refl)
+    as (w' & A & B & C & D & E & F & _).
+  exists w'. split; [exact A|]. split; [exact B|]. split; [exact C|]. split; [exact D|].
+  split; [exact E|exact F].
+Qed.
+
+(* a handler whose __shaking flag is set (a connect raised) never sends again:
+   whatever is emitted is appended to the queue, no connection is tried, no
+   byte is written, the flag stays set *)
+Lemma LS_stuck_step s e : ls_shaking s = true -> ls_sock s = None ->
+  let s' := ls_step pk false s e in
+  ls_shaking s' = true /\ ls_sock s' = None /\ ls_closed s' = ls_closed s /\ ls_env s' = ls_env s
+  /\ ls_dropped s' = ls_dropped s /\ ls_q s' = ls_q s ++ LS_ev_ids e.
+Proof.
+  intros Hk Hs. destruct e as [t r|t]; cbn [ls_step LS_ev_ids]; cbv zeta.
+  - unfold ls_emit. cbn [ls_at ls_shaking ls_set_clock]. rewrite Hk. cbn. auto 10.
+  - unfold ls_close. cbn [ls_at ls_sock ls_set_clock]. rewrite Hs. cbn. rewrite app_nil_r. auto 10.
+Qed.
+
+Theorem LS_stuck_forever evs : forall s, ls_shaking s = true -> ls_sock s = None ->
+  let s' := ls_run pk false s evs in
+  ls_shaking s' = true /\ ls_wires s' = ls_wires s /\ ls_env s' = ls_env s
+  /\ ls_dropped s' = ls_dropped s /\ ls_q s' = ls_q s ++ flat_map LS_ev_ids evs.
+Proof.
+  unfold ls_run. induction evs as [|e evs IH]; intros s Hk Hs; cbn [fold_left flat_map]; cbv zeta.
+  - rewrite app_nil_r. auto.
+  - destruct (LS_stuck_step s e Hk Hs) as (Hk1 & Hs1 & Hc1 & He1 & Hd1 & Hq1). cbv zeta in *.
+    destruct (IH _ Hk1 Hs1) as (A & B & C & D & E). cbv zeta in *.
+    split; [exact A|]. split; [|split; [congruence|split; [congruence|]]].
+    + rewrite B. unfold ls_wires. rewrite Hs1, Hs, Hc1. reflexivity.
+    + rewrite E, Hq1, app_assoc. reflexivity.
+Qed.
+
+(* how the handler gets there: a record emitted while there is no connection
+   and the connect raises -- the record is dropped, what security.connect logged
+   is queued, the flag stays set *)
+Theorem LS_failed_connect s a env r :
+  ls_sock s = None -> ls_shaking s = false -> ls_q s = [] -> ls_rtime s = None ->
+  ls_env s = a :: env -> ls_res a <> 0 ->
+  let s' := ls_emit pk false s r in
+  ls_shaking s' = true /\ ls_sock s' = None /\ ls_dropped s' = ls_dropped s ++ [r]
+  /\ ls_q s' = ls_logged a /\ ls_closed s' = ls_closed s /\ ls_env s' = env.
+Proof.
+  intros Hs Hk Hq Hr He Ha. cbv zeta. unfold ls_emit. rewrite Hk.
+  assert (F : ls_flush pk (ls_fuel s) s = s) by (destruct (ls_fuel s); cbn [ls_flush]; rewrite ?Hq; reflexivity).
+  rewrite F. unfold ls_send. rewrite Hs. unfold ls_createSocket. cbv zeta.
+  cbn [ls_rtime ls_set_clock ls_env ls_q]. rewrite Hr, He, Hq. cbn [hd tl ls_logged_hd].
+  apply Z.eqb_neq in Ha. rewrite Ha. destruct (ls_res a =? 1); cbn; rewrite ?Hs; cbn; auto 10.
+Qed.
+
+End Conservation.
